@@ -90,6 +90,9 @@ def bounded(ctx, b):
     # deterministic inputs of the two recorded findings (so they are exercised on every run)
     sets.append(("style_named_like_a_region", CaptionSet({"en": CaptionList([Caption(0, 10 ** 6, [T("x")], style={"class": "bottom"})])},
                                                          styles={"bottom": {"color": "red"}, "r0": {"color": "blue"}})))
+    sets.append(("p_style_without_writable_properties", CaptionSet(
+        {"en": CaptionList([Caption(0, 10 ** 6, [T("x")], style={"class": "k"}), Caption(10 ** 6, 2 * 10 ** 6, [T("y")])])},
+        styles={"p": {"bold": True, "underline": True}, "k": {"color": "red"}, "empty": {}})))
     sets.append(("empty_last_language", CaptionSet({"en": CaptionList([Caption(0, 10 ** 6, [T("x")])]), "xx": CaptionList()})))
     for name, cs in sets:
         for W, opts in WRITER_OPTIONS:
